@@ -51,6 +51,9 @@ type workload struct {
 	SrcYields  int            `json:"src_yields"`                // extra scheduling points per feature in the reader (slow reader)
 	TgtYields  int            `json:"tgt_yields"`                // extra scheduling points per received feature (slow target)
 	NearDup    bool           `json:"near_duplicates,omitempty"` // polygons of consecutive features nearly coincide
+	// SharedShell: all polygons have the same outer ring and one hole; only the hole's
+	// coordinates tell them apart (comparisons that stop early see equal polygons)
+	SharedShell bool `json:"shared_shell,omitempty"`
 	// More: further tables processed by further ProcessFeatures calls in the same run (the
 	// command line tool calls it once per table in one process), each with its own stream
 	// and targets; state kept between calls by the code under test shows here
@@ -172,8 +175,10 @@ func genWorkloadN(seed uint64, mix string, nested bool) (workload, simrt.FaultPl
 			}
 			switch x := r.Intn(10); {
 			case x < 3: // dropped
-			case x < 8:
+			case x < 7:
 				out[strconv.Itoa(id)] = 1
+			case x < 8:
+				out[strconv.Itoa(id)] = -1 // kept exactly as it came in (one polygon equal to the input)
 			default:
 				out[strconv.Itoa(id)] = 2 + r.Intn(2)
 			}
@@ -215,6 +220,7 @@ func genWorkloadN(seed uint64, mix string, nested bool) (workload, simrt.FaultPl
 		w.Features = append(w.Features, f)
 	}
 	w.NearDup = r.Chance(0.08)
+	w.SharedShell = !w.NearDup && r.Chance(0.08)
 	w.Flush = map[string]int{}
 	for _, id := range ids {
 		k := 1 + r.Intn(3)
@@ -292,7 +298,7 @@ func genWorkloadN(seed uint64, mix string, nested bool) (workload, simrt.FaultPl
 			if r.Chance(0.25) {
 				nw.Features = nil // an empty table in between
 			}
-			nw.NearDup = w.NearDup
+			nw.NearDup, nw.SharedShell = w.NearDup, w.SharedShell
 			w.More = append(w.More, nw)
 		}
 	}
@@ -359,7 +365,33 @@ func decodeCols(f featSpec) []interface{} {
 // can tell which production it is asked for.
 func inputPolygon(fid, part int) geom.Polygon {
 	x, y := polyBase+float64(fid)*polyScale, polyBase+float64(part)*polyScale
+	if sharedShell {
+		return geom.Polygon{{{-8, -8}, {1e7, -8}, {-8, 1e7}}, {{x + 0.125, y + 0.125}, {x + 0.125, y + 0.375}, {x + 0.375, y + 0.125}}}
+	}
 	return geom.Polygon{{{x, y}, {x + 1, y}, {x, y + 1}}}
+}
+
+// sharedShell: see workload.SharedShell. Set per run by build().
+var sharedShell bool
+
+// produced: the polygons the stub returns for an outcome-table entry (n > 0: n unique
+// polygons; n < 0: the input itself, as a fresh copy).
+func produced(fid, part, tm, n int) []geom.Polygon {
+	if n < 0 {
+		return []geom.Polygon{inputPolygon(fid, part)}
+	}
+	var out []geom.Polygon
+	for i := 0; i < n; i++ {
+		out = append(out, outputPolygon(fid, part, tm, i))
+	}
+	return out
+}
+
+func outCount(n int) int {
+	if n < 0 {
+		return 1
+	}
+	return n
 }
 
 // polyBase / polyScale place the generated polygons. Normally base 0 and spacing 1; in
@@ -369,6 +401,9 @@ func inputPolygon(fid, part int) geom.Polygon {
 var polyBase, polyScale = 0.0, 1.0
 
 func decodePolygon(p geom.Polygon) (fid, part int) {
+	if sharedShell && len(p) >= 2 && len(p[1]) > 0 {
+		return int(math.Round((p[1][0][0] - 0.125 - polyBase) / polyScale)), int(math.Round((p[1][0][1] - 0.125 - polyBase) / polyScale))
+	}
 	return int(math.Round((p[0][0][0] - polyBase) / polyScale)), int(math.Round((p[0][0][1] - polyBase) / polyScale))
 }
 
@@ -563,9 +598,8 @@ func (h *harness) tableSnap(p geom.Polygon, tmIDs []int) map[int][]geom.Polygon 
 		return out
 	}
 	for _, tm := range tmIDs {
-		n := f.Parts[part].Out[strconv.Itoa(tm)]
-		for i := 0; i < n; i++ {
-			out[tm] = append(out[tm], outputPolygon(fid, part, tm, i))
+		if ps := produced(fid, part, tm, f.Parts[part].Out[strconv.Itoa(tm)]); len(ps) > 0 {
+			out[tm] = ps
 		}
 	}
 	return out
@@ -594,9 +628,7 @@ func model(w *workload, target int) []expected {
 		}
 		e.poly = true
 		for p, part := range f.Parts {
-			for i := 0; i < part.Out[key]; i++ {
-				e.polys = append(e.polys, outputPolygon(f.ID, p, target, i))
-			}
+			e.polys = append(e.polys, produced(f.ID, p, target, part.Out[key])...)
 		}
 		if len(e.polys) > 0 {
 			out = append(out, e)
@@ -766,6 +798,7 @@ func stepBudget1(w *workload) int {
 
 func build(w *workload) (*harness, *fakeSource, map[int]processing.Target) {
 	polyBase, polyScale = 0, 1
+	sharedShell = w.SharedShell
 	if w.NearDup {
 		polyBase, polyScale = 5e6, 0.25
 	}
@@ -957,7 +990,7 @@ func collectProbes(h *harness, w *workload, rr *runResult) {
 		for _, id := range w.Targets {
 			n := 0
 			for _, part := range f.Parts {
-				n += part.Out[strconv.Itoa(id)]
+				n += outCount(part.Out[strconv.Itoa(id)])
 			}
 			if n == 0 {
 				dropped++
@@ -982,7 +1015,7 @@ func collectProbes(h *harness, w *workload, rr *runResult) {
 			for _, part := range f.Parts {
 				tot := 0
 				for _, n := range part.Out {
-					tot += n
+					tot += outCount(n)
 				}
 				if tot == 0 {
 					none = true
